@@ -33,7 +33,9 @@ type pbuilder struct {
 	f    []f16
 }
 
-func newPB(name string, typ, flags byte) *pbuilder { return &pbuilder{name: name, tf: typ<<4 | flags&0x0f} }
+func newPB(name string, typ, flags byte) *pbuilder {
+	return &pbuilder{name: name, tf: typ<<4 | flags&0x0f}
+}
 
 func (p *pbuilder) str(name string, s []byte) *pbuilder {
 	p.f = append(p.f, f16{name, len(p.body)})
@@ -159,10 +161,11 @@ func (k Keys) byName(n string) string {
 }
 
 // expandValue turns the symbolic value of a json deviation into JSON text.
-//   raw:<text>         the text itself
-//   rep:<unit>*<n>     a JSON string made of n copies of unit
-//   nest:<n>           n nested arrays
-//   nestobj:<n>        n nested objects {"a":{"a":...}}
+//
+//	raw:<text>         the text itself
+//	rep:<unit>*<n>     a JSON string made of n copies of unit
+//	nest:<n>           n nested arrays
+//	nestobj:<n>        n nested objects {"a":{"a":...}}
 func expandValue(v string) string {
 	switch {
 	case strings.HasPrefix(v, "raw:"):
